@@ -18,8 +18,8 @@ INTS = [-2, -1, 0, 1, 2, 3, 10]
 FLOATS = [0.5, 2.0]
 FLISTS = [[0.5, 2, 10], [2.5, -1]]
 STRS = ['', 'a', 'ab', 'a,b']
-ILISTS = [[], [1], [2, 1], [3, 1, 2], [1, 1], [2, 2, 1], [10, 2], [-1, -2], [2, 10, -1]]
-SLISTS = [[], ['a'], ['b', 'a'], ['ab', '', 'a'], ['b', 'B', '!a']]
+ILISTS = [[], [1], [2, 1], [3, 1, 2], [1, 1], [2, 2, 1], [10, 2], [-1, -2], [2, 10, -1], [5, 3, 11, 2, 10, 1, 3, 12, 0, -4, 7, 2, 100]]
+SLISTS = [[], ['a'], ['b', 'a'], ['ab', '', 'a'], ['b', 'B', '!a'], ['k', 'a', 'j', 'b', 'i', 'c', 'h', 'd', 'g', 'e', 'f', 'a', '10', '9']]
 
 
 def lit(v):
@@ -51,7 +51,7 @@ def scalar_builtins():
   B['and'] = ('({0} && {1})', list(itertools.product(bools, bools)), lambda a, b: a and b)
   B['or'] = ('({0} || {1})', list(itertools.product(bools, bools)), lambda a, b: a or b)
   B['not'] = ('(!{0})', [(a,) for a in bools], lambda a: not a)
-  B['Range'] = ('Range({0})', [(n,) for n in (-2, -1, 0, 1, 2, 3, 5)], lambda n: list(range(n)))
+  B['Range'] = ('Range({0})', [(n,) for n in (-2, -1, 0, 1, 2, 3, 5, 12, 101)], lambda n: list(range(n)))
   B['Size'] = ('Size({0})', [(l,) for l in ILISTS + SLISTS], lambda l: len(l))
   B['Element'] = ('Element({0}, {1})', [(l, i) for l in ILISTS + SLISTS for i in range(len(l))], lambda l, i: l[i])
   B['Subscript'] = ('{0}[{1}]', [(l, i) for l in ILISTS + SLISTS for i in range(len(l))], lambda l, i: l[i])
@@ -71,7 +71,7 @@ def scalar_builtins():
   B['LeastS'] = ('Least({0}, {1})', list(itertools.product(STRS, STRS)), lambda a, b: min(a, b))
   B['if'] = ('(if {0} < {1} then {0} else {1})', list(itertools.product(INTS, INTS)), lambda a, b: a if a < b else b)
   B['SizeRange'] = ('Size(Range({0}))', [(n,) for n in (0, 1, 2, 3)], lambda n: n)
-  B['ElementRange'] = ('Element(Range({0}), {1})', [(n, i) for n in (1, 2, 3) for i in range(n)], lambda n, i: i)
+  B['ElementRange'] = ('Element(Range({0}), {1})', [(n, i) for n in (1, 2, 3, 12) for i in range(n)], lambda n, i: i)
   B['SortConcat'] = ('Sort(ArrayConcat({0}, {1}))', list(itertools.product(ILISTS[:4], ILISTS[:4])), lambda a, b: sorted(a + b))
   return B
 
